@@ -46,6 +46,8 @@ PROBES = [
     "frontier-cache-hit",
     "walk-restarted",
     "stable-keys-checked",
+    "two-walks-in-progress",
+    "walker-pinned-to-a-version",
 ]
 FAULTS = ["batch-abort", "batch-abort-base", "crash-reopen", "restart-regenerated-counts"]
 COMPONENTS = {
@@ -85,8 +87,11 @@ def fog_members(fog):
 
 
 class Walker:
-    def __init__(self, use_cache):
+    def __init__(self, use_cache, pinned=False):
         self.use_cache = use_cache
+        # a pinned walker syncs the version of the trie that was current when it started
+        # (its own handle on that root) while the live trie moves on; non-pruning only
+        self.pinned = pinned
         self.reset()
 
     def reset(self):
@@ -102,12 +107,15 @@ class Walker:
         self.steps_after_quiet = None
         self.retry_root = set()
         self.steps = 0
+        self.trie = None
+        self.contents = None
 
 
 class World(HWorld):
     def __init__(self, cfg, st):
         super().__init__(cfg, st, oracles=())
-        self.walkers = [Walker(bool(c)) for c in cfg.get("walkers", [1])]
+        pins = cfg.get("pinned", [])
+        self.walkers = [Walker(bool(c), bool(pins[i]) if i < len(pins) else False) for i, c in enumerate(cfg.get("walkers", [1]))]
         self.completed = 0
         self._seen_ver = None
 
@@ -127,7 +135,7 @@ class World(HWorld):
         model = h.model
         nodes = None
         for w in self.walkers:
-            if not w.started or w.done:
+            if not w.started or w.done or w.trie is not None:
                 continue
             w.mutated = True
             for kv in model.items():
@@ -140,6 +148,12 @@ class World(HWorld):
 
     def _start(self, w, h):
         w.started = True
+        if w.pinned and not h.prune:
+            from trie import HexaryTrie
+
+            w.trie = HexaryTrie(self.db, h.trie.root_hash)
+            w.contents = dict(h.model)
+            self.st.probe("walker-pinned-to-a-version")
         w.ever = set(h.model.items())
         w.stable = dict(h.model)
         w.node_budget = len(RefMPT(h.model).all_nodes())
@@ -165,7 +179,9 @@ class World(HWorld):
             return "done"
         if not w.started:
             self._start(w, h)
-        trie = h.trie
+            if sum(1 for x in self.walkers if x.started and not x.done) >= 2:
+                self.st.probe("two-walks-in-progress")
+        trie = w.trie if w.trie is not None else h.trie
         fog = w.fog
         if fog.is_complete:
             return self.complete(h, w)
@@ -223,7 +239,7 @@ class World(HWorld):
             if pair not in w.ever:
                 self.viol("met-never-stored", f"walk met {key.hex()} -> {pair[1]!r}, which was never stored during the walk")
             w.met.append(pair)
-            if cached is not None and h.model.get(key) != pair[1]:
+            if cached is not None and w.trie is None and h.model.get(key) != pair[1]:
                 st.probe("stale-cached-parent-served")
         try:
             w.fog = fog.explore(prefix, node.sub_segments)
@@ -246,7 +262,7 @@ class World(HWorld):
         met = sorted(w.met)
         if not w.mutated:
             st.probe("walk-static")
-            want = sorted(h.model.items())
+            want = sorted((w.contents if w.trie is not None else h.model).items())
             if met != want:
                 missing = [kv for kv in want if kv not in met]
                 extra = [kv for kv in met if kv not in want]
@@ -317,8 +333,9 @@ def generate(rng):
     probes = probe_keys(rng, pool, extra=1)
     prune = rng.random() < 0.5
     cache = rng.choice([0, 2, 4096])
-    nw = rng.choice([1, 1, 2])
-    walkers = [int(rng.random() < 0.65) for _ in range(nw)]
+    nw = rng.choice([1, 1, 2, 2, 3])
+    walkers = [int(rng.random() < 0.7) for _ in range(nw)]
+    start_at = [0] + [rng.choice([0, 0, 2, 5, 10, 20]) for _ in range(nw - 1)]  # late starters
     g = HistoryGen(rng, pool, values, probes, batches=True, aborts=True, reopen=True, lookups=(0, 0))
     g.w["set"] += 4
     cmds = g.history(rng.choice([0, 4, 8, 12, 16, 24, 40]))
@@ -326,14 +343,19 @@ def generate(rng):
     law = rng.choice(["unknown", "right", "mixed"])
     n_steps = rng.choice(deep([5, 10, 20, 40, 80], [10, 20, 40, 80, 160, 300]))
 
-    def walk_cmd():
-        q, qk = gen_query(rng, pool)
-        if law != "mixed":
-            q = law
-        return {"op": "walk", "w": rng.randrange(nw), "q": q, "qk": qk}
+    # "trailing" runs: every walker asks the same question at every step, so a late
+    # starter retraces, some steps behind, the path of an earlier one
+    fixed = gen_query(rng, pool) if (nw >= 2 and rng.random() < 0.5) else None
 
-    for _ in range(n_steps):
-        cmds.append(walk_cmd())
+    def walk_cmd(step):
+        q, qk = fixed if fixed is not None else gen_query(rng, pool)
+        if law != "mixed" and fixed is None:
+            q = law
+        ready = [w for w in range(nw) if start_at[w] <= step]
+        return {"op": "walk", "w": rng.choice(ready), "q": q, "qk": qk}
+
+    for step in range(n_steps):
+        cmds.append(walk_cmd(step))
         r = rng.random()
         if density == "burst":
             if r < 0.15:
@@ -353,7 +375,8 @@ def generate(rng):
             cmds.append({"op": "walk_new", "w": rng.randrange(nw)})
     for i in range(nw):
         cmds.append({"op": "walk_finish", "w": i, "qs": [list(gen_query(rng, pool)) for _ in range(rng.choice([1, 3, 5]))]})
-    return {"prop": ID, "cfg": {"prune": prune, "cache": cache, "walkers": walkers}, "cmds": cmds}
+    pinned = [int(rng.random() < 0.35) for _ in range(nw)]
+    return {"prop": ID, "cfg": {"prune": prune, "cache": cache, "walkers": walkers, "pinned": pinned}, "cmds": cmds}
 
 
 def explore(rng, st):
